@@ -289,6 +289,49 @@ class Check(object):
         self.backends['exhaustive-evaluation'] = self.backends.get(
             'exhaustive-evaluation', 0) + 1
 
+    def add_lean_obligation(self, oid, leanfile, theorems, describe=''):
+        """A lemma about the specification vocabulary (not about the code)
+        proved in Lean 4 and re-checked by its kernel on every run.  The
+        file must elaborate without error, without `sorry`, and `#print
+        axioms` of each named theorem may list only Lean's standard axioms.
+        One obligation per theorem; anything else is `unknown` (UNDECIDED),
+        never a violation."""
+        import re as _re
+        path = os.path.join(ROOT, leanfile)
+        t0 = time.time()
+        try:
+            pr = subprocess.run(['lean', path], capture_output=True,
+                                text=True, timeout=600)
+            out, rc = pr.stdout + pr.stderr, pr.returncode
+        except Exception as e:          # lean missing / timeout
+            out, rc = 'lean not run: %r' % (e,), -1
+        dt = time.time() - t0
+        src = open(path).read()
+        allowed = {'propext', 'Quot.sound', 'Classical.choice'}
+        for th in theorems:
+            m = _re.search(r"'%s' (does not depend on any axioms|depends on "
+                           r"axioms: \[([^\]]*)\])" % _re.escape(th), out)
+            axs = set(a.strip() for a in (m.group(2) or '').split(',')
+                      if a.strip()) if m else None
+            ok = (rc == 0 and m is not None and axs <= allowed
+                  and 'sorry' not in out and 'error' not in out
+                  and _re.search(r'\bsorry\b|\baxiom\b|\badmit\b',
+                                 _re.sub(r'/-.*?-/|--[^\n]*', '', src,
+                                         flags=_re.S)) is None
+                  and _re.search(r'theorem\s+%s\b' % _re.escape(th), src))
+            self.extra_obligations.append({
+                'id': oid + '.' + th, 'status': 'unsat' if ok else 'unknown',
+                'solver': 'lean-4-kernel', 'time_s': round(dt, 2),
+                'describe': describe + ' [%s, theorem %s, axioms %s]' % (
+                    leanfile, th, sorted(axs) if axs is not None else '?'),
+                'model': {}, 'raw': '' if ok else out[:1500]})
+            self.backends['lean-4-kernel'] = self.backends.get(
+                'lean-4-kernel', 0) + 1
+            if not ok:
+                self.undecided.append('%s.%s: Lean did not accept the lemma'
+                                      % (oid, th))
+        self.solver_time += dt
+
     # ------------------------------------------------------------------
     def failed_obligations(self):
         out = []
